@@ -232,6 +232,31 @@ def hygiene(files=None):
     return bad
 
 
+_REQ = re.compile(r"From\s+Orso\s+Require\s+(?:Import\s+|Export\s+)?([^.]*(?:\.[A-Za-z_][^.\s]*)*)\s*\.(?:\s|$)")
+
+
+def dep_closure(roots):
+    """Source files (relative to coq/) reachable from the given ones through
+    `From Orso Require [Import|Export] A.B C.D.` statements."""
+    seen, todo = [], list(roots)
+    while todo:
+        rel = todo.pop()
+        if rel in seen:
+            continue
+        path = os.path.join(COQ, rel)
+        if not os.path.exists(path):
+            continue
+        seen.append(rel)
+        src = strip_comments(open(path).read())
+        for m in re.finditer(r"From\s+Orso\s+Require\s+(?:Import\s+|Export\s+)?(.*?)\.\s*(?:\n|$)", src, re.S):
+            for mod in m.group(1).split():
+                todo.append(mod.replace(".", "/") + ".v")
+        for m in re.finditer(r"Require\s+(?:Import\s+|Export\s+)?((?:Orso\.[\w.]+\s*)+)\.\s*(?:\n|$)", src):
+            for mod in m.group(1).split():
+                todo.append(mod[len("Orso."):].replace(".", "/") + ".v")
+    return sorted(seen)
+
+
 def sources_digest():
     h = hashlib.sha256()
     for rel in list_sources():
